@@ -33,7 +33,12 @@ RB = [('open',), ('r', 'x'), ('begin',), ('r', 'y'), ('r', 'x'), ('close',)]
 RW = [('open',), ('r', 'x'), ('w', 'y'), ('commit',), ('r', 'x'), ('r', 'y'),
       ('close',)]
 
+VF = [('open',), ('w', 'x'), ('commit-vote-fail',), ('w', 'y'), ('commit',),
+      ('close',)]
+RXY2 = [('open',), ('r', 'x'), ('abort',), ('r', 'y'), ('close',)]
+
 HARNESSES = {
+    'vetoed-commit-then-commit+reader': [VF, RXY2],
     'writer2+reader2': [W2, R2],
     'writer+pooluser': [W1, POOL],
     'writer+reader-begin': [W1, RB],
